@@ -32,7 +32,7 @@ func TestVerifC03Resync(t *testing.T) {
 		cuts, lossy, retrans := 0, 0, 0
 		labels := map[string]bool{}
 		err := s.Run(t, chansim.RunOpts{
-			MinSteps: 8, MaxSteps: maxSteps, Cuts: true, CutWeight: 3,
+			MinSteps: 8, MaxSteps: maxSteps, Cuts: true, CutWeight: 3, Faults: true,
 			AfterCut: func(s *chansim.Sim, rep *chansim.RetransmitReport) error {
 				cuts++
 				if rep.Lost > 0 {
